@@ -5,6 +5,8 @@ proof:  lean/AdeptProofs/Props/C10.lean (first seed after clear_gradients forget
         same values and record nothing; add/append_derivative_dependence are the linear statements they describe)
 tie:    model AdeptModel/StackProto.lean <-> adept::Stack / Active, exact comparison of every observable on random
         protocol-respecting histories over integer tapes, default and ADEPT_RECORDING_PAUSABLE builds
+        histories use the scalar AND the array forms: Stack::independent/dependent(const A* x, n), the free functions
+        set_gradients / get_gradients / set_values / get_values on arrays of Active, preallocate_* calls, ActiveReference targets
 oracle: Python re-evaluation of every pass from the implementation's own tape dump and the seeds since the last
         clear_gradients (= what a fresh identical recording gives); values against plain integer evaluation
 """
@@ -17,11 +19,12 @@ LEVEL = "proof"
 NS = "Adept.StackProto."
 REQUIRED = ["C10_dependence_array_is_statement", "C10_append_array_is_extension", "C10_dependence_array_records",
             "C10_dependence_array_unfolds", "C10_first_seed_forgets", "C10_pass_pure_fwd", "C10_pass_pure_rev", "C10_new_recording_forgets", "C10_pause_noop",
-            "C10_dependence_is_statement", "C10_append_dependence"]
+            "C10_dependence_is_statement", "C10_append_dependence", "C10_lists_array_is_repeated", "C10_set_gradients_array_is_seeds",
+            "C10_set_gradients_array_stops", "C10_get_gradients_array"]
 
 
 def gen_case(rng, W, pausable):
-    g = tc.Gen(rng, pausable=pausable)
+    g = tc.Gen(rng, pausable=pausable, array_forms=True)
     g.emit("cfg %d %d 1" % (W, 1 if pausable else 0))
     for _ in range(rng.randint(2, 4)):
         g.new()
@@ -43,6 +46,9 @@ def gen_case(rng, W, pausable):
         # values are those of plain evaluation (also across paused stretches)
         for k in list(g.live):
             q.append(("val", len(g.ops), g.live[k])); g.emit("val %d" % k)
+        # ... also read n at once with the free function get_values(const Active* a, n, data) (n = 0 now and then)
+        hs = [rng.choice(list(g.live)) for _ in range(rng.choice([0, 1, 2, 3, 5]))]
+        q.append(("valn", len(g.ops), [g.live[k] for k in hs])); g.emit(("getvn " + " ".join(map(str, hs))).rstrip())
         ti = len(g.ops); g.emit("tape")
         for rnd in range(rng.randint(2, 5)):
             kind = rng.choice(["fwd", "rev", "jac", "fwd", "rev"])
@@ -50,19 +56,19 @@ def gen_case(rng, W, pausable):
             if kind in ("fwd", "rev"):
                 g.emit("clrg")
                 seeds = [(rng.choice(live), rng.randint(-3, 3)) for _ in range(rng.randint(1, 3))]
-                for k, v in seeds:
-                    g.emit("seed %d %d" % (k, v))
+                tc.emit_seeds(g, rng, seeds)       # set_gradient one by one, or set_gradients(Active* a, n, data)
                 g.emit(kind)
                 for k in rng.sample(live, min(len(live), 4)):
                     q.append(("pass", len(g.ops), (ti, kind, list(seeds), k))); g.emit("get %d" % k)
+                if rng.random() < 0.6:
+                    # the free function get_gradients(const Active* a, n, data): n gradients at once (repeats allowed, n = 0 rarely)
+                    ks = [rng.choice(live) for _ in range(rng.choice([0, 1, 2, 3, 3, 5]))]
+                    q.append(("passn", len(g.ops), (ti, kind, list(seeds), ks))); g.emit(("getgn " + " ".join(map(str, ks))).rstrip())
             else:
                 g.emit("clri"); g.emit("clrd")
                 n, m = rng.randint(1, 5), rng.randint(1, 5)
                 indep, dep = tc.pick_lists(rng, g, n, m)
-                for k in indep:
-                    g.emit("indep %d" % k)
-                for k in dep:
-                    g.emit("dep %d" % k)
+                tc.emit_lists(g, rng, indep, dep)   # scalar forms and Stack::independent/dependent(const A* x, n)
                 q.append(("jac", len(g.ops), (ti, indep, dep))); g.emit("jac %s mat" % rng.choice(["auto", "fwd", "rev"]))
         # the recording is still what it was
         q.append(("sametape", len(g.ops), ti)); g.emit("tape")
@@ -71,10 +77,7 @@ def gen_case(rng, W, pausable):
         if not pausable:
             g.emit("clri"); g.emit("clrd")
             outs = list(g.live)
-            for k in outs:
-                g.emit("indep %d" % k)
-            for k in outs:
-                g.emit("dep %d" % k)
+            tc.emit_lists(g, rng, outs, outs)
             q.append(("true", len(g.ops), outs)); g.emit("jac %s mat" % rng.choice(["auto", "fwd", "rev"]))
     g.emit("clrg")
     return g.ops, {"queries": q, "pausable": pausable}
@@ -119,6 +122,9 @@ def oracle_case(ops, meta, il):
         elif kind == "val":
             if line != "v %d" % info:
                 return "op %d (%s): value %r, plain evaluation gives %d" % (oi, ops[oi], line, info)
+        elif kind == "valn":
+            if line.split() != ["V"] + [str(v) for v in info]:
+                return "op %d (%s): get_values gave %r, plain evaluation gives %s" % (oi, ops[oi], line, info)
         elif kind == "sametape":
             if line != il[info]:
                 return "op %d: the recording changed during derivative passes" % oi
@@ -139,7 +145,7 @@ def oracle_case(ops, meta, il):
                         if p[0][r][c] != env[y][1].get(x, 0):
                             return ("op %d (%s): d x%d / d x%d = %d, textbook forward-mode evaluation of what executed after "
                                     "new_recording gives %d" % (oi, ops[oi], y, x, p[0][r][c], env[y][1].get(x, 0)))
-        elif kind in ("pass", "jac"):
+        elif kind in ("pass", "passn", "jac"):
             ti = info[0]
             if ti not in tapes:
                 try:
@@ -149,7 +155,17 @@ def oracle_case(ops, meta, il):
                 if tc.tape_abs_bound(tapes[ti], set(idx.values())) * 64 >= tc.EXACT_BOUND:
                     return "skip"
             tape = tapes[ti]
-            if kind == "pass":
+            if kind == "passn":
+                _, pk, seeds, ks = info
+                g = {}
+                for h, v in seeds:
+                    g[idx[h]] = v
+                g = tc.tape_fwd(tape, g) if pk == "fwd" else tc.tape_rev(tape, g)
+                exp = ["G"] + [str(g.get(idx[k], 0)) for k in ks]
+                if line.split() != exp:
+                    return ("op %d (%s after %s with seeds %s): get_gradients on the array gave %r, a fresh identical recording gives %s"
+                            % (oi, ops[oi], pk, seeds, line, " ".join(exp)))
+            elif kind == "pass":
                 _, pk, seeds, k = info
                 g = {}
                 for h, v in seeds:
@@ -182,7 +198,7 @@ def run_cases(ctx, exe, label, cases):
         if verdict == "skip":
             ctx.notes["skipped_inexact"] = ctx.notes.get("skipped_inexact", 0) + 1
             continue
-        npass = sum(1 for k, _, _ in meta["queries"] if k in ("pass", "jac"))
+        npass = sum(1 for k, _, _ in meta["queries"] if k in ("pass", "passn", "jac"))
         ctx.count_case((label, tuple(ops)), nontrivial=npass >= 2,
                        sample={"build": label, "ops": ops[:16] + ["..."], "n_ops": len(ops)})
         for o in ops:
